@@ -81,6 +81,9 @@ def parse_tree(repo):
             decl[m.group(2)] = (ret, params, " ".join(m.group(3).split()))
         k = c.find("_rtcd_internal(CPU_FLAGS flags)")
         body = c[k:] if k >= 0 else c
+        # pointers assigned by hand (no C reference, e.g. svt_cdef_filter_block_8x8_16): cannot be checked differentially, but never hidden
+        for m in re.finditer(r"if\s*\(\s*flags\s*&\s*(HAS_\w+)\s*\)\s*(\w+)\s*=\s*(\w+)\s*;", body):
+            problems.append("manual assignment without C reference (not covered): %s = %s under %s" % (m.group(2), m.group(3), m.group(1)))
         for m in re.finditer(r"\b(SET_\w+)\s*\(([^;{}]*?)\)\s*;", body, flags=re.S):
             mac = m.group(1)
             if mac not in macros:
